@@ -13,7 +13,7 @@ import (
 )
 
 func init() {
-	register("C08", "Decides the necessary condition of bounded termination: every operation that can block on the run path is governed by a finite deadline that originates from the run's parameters or a constant, and every loop has a recognised exit. (R08.1) Every call of a blocking primitive in the module functions reachable from RunTraceroute and the protocol entry points is enumerated (capture reads, dials, HTTP requests and body reads, resolver lookups, retries, channel receives, sleeps, joins) and must have its governor: a dominating SetReadDeadline(time.Now().Add(d)) on the same source, a context that derives from WithTimeout/WithDeadline (or a runtime Deadline() check), a dialer/client timeout, a timer channel, or a parameter-derived duration; (R08.2) each loop on the run path is counted, tests a deadline-bearing context on every iteration, contains a deadline-governed read whose failure leaves it, or is in the reviewed table; (R08.3) drop-all is attached before the non-blocking drain and the real filter after it; (R08.4) both engines derive their timeout context from the caller's and report cancellation: the success return lies behind ctx.Err() == nil, the other edge returns ctx.Err(). The value of the bound, one-poll-interval promptness and kernel behaviour are runtime quantities and are not decided. Producer/consumer contract: when a loop leaves on errors.Is(err, os.ErrDeadlineExceeded) for an error produced by the read helper, the helper's own deadline branch must return an error that still wraps the read error. (R08.5) A driver's ReceiveProbe arms, before the capture read on every path, the read deadline time.Now().Add(d) with d its own duration parameter (the poll interval). Capture-read wrappers are recognised structurally (a module function that reads from a packets.Source parameter); a channel may be closed by a deferred method. The read deadline that is a loop's only bound is armed before the loop, not re-armed per iteration. (R08.6) The reverse-DNS fan-out's lookups are not made under the mutex the sibling goroutines need.", runC08)
+	register("C08", "Decides the necessary condition of bounded termination: every operation that can block on the run path is governed by a finite deadline that originates from the run's parameters or a constant, and every loop has a recognised exit. (R08.1) Every call of a blocking primitive in the module functions reachable from RunTraceroute and the protocol entry points is enumerated (capture reads, dials, HTTP requests and body reads, resolver lookups, retries, channel receives, sleeps, joins) and must have its governor: a dominating SetReadDeadline(time.Now().Add(d)) on the same source, a context that derives from WithTimeout/WithDeadline (or a runtime Deadline() check), a dialer/client timeout, a timer channel, or a parameter-derived duration; (R08.2) each loop on the run path is counted, tests a deadline-bearing context on every iteration, contains a deadline-governed read whose failure leaves it, or is in the reviewed table; (R08.3) drop-all is attached before the non-blocking drain and the real filter after it; (R08.4) both engines derive their timeout context from the caller's and report cancellation: the success return lies behind ctx.Err() == nil, the other edge returns ctx.Err(). The value of the bound, one-poll-interval promptness and kernel behaviour are runtime quantities and are not decided. Producer/consumer contract: when a loop leaves on errors.Is(err, os.ErrDeadlineExceeded) for an error produced by the read helper, the helper's own deadline branch must return an error that still wraps the read error. (R08.5) A driver's ReceiveProbe arms, before the capture read on every path, the read deadline time.Now().Add(d) with d its own duration parameter (the poll interval). Capture-read wrappers are recognised structurally (a module function that reads from a packets.Source parameter); a channel may be closed by a deferred method. The read deadline that is a loop's only bound is armed before the loop, not re-armed per iteration. (R08.6) The reverse-DNS fan-out's lookups are not made under the mutex the sibling goroutines need. (R08.7) In the auxiliary lookups (resolver, public-IP providers) no deadline context is created per attempt of a retry loop unless it derives from a deadline context created before the loop: a per-attempt deadline multiplies the stated lookup timeout by the number of attempts.", runC08)
 	darwinRules["C08"] = runC08
 }
 
